@@ -117,6 +117,7 @@ fn main() {
             let mut w = std::io::BufWriter::new(std::fs::File::create(outp).expect("trace file"));
             let first: u64 = arg(&args, "--first-index").map(|s| s.parse().unwrap()).unwrap_or(0);
             let mut n = first;
+            let mut toks = util::Toks::default(); // tokens are equality classes over the whole trace file
             let mut ncalls = 0u64;
             let mut nev = 0u64;
             for line in f.lines() {
@@ -127,10 +128,30 @@ fn main() {
                 let v: Value = serde_json::from_str(&line).expect("scenario json");
                 let mut recs: Vec<fmx::CallRec> = vec![];
                 fm::clear_digests();
-                let (_out, _) = fmx::run_scenario(&mut ctx, &v["sc"], n, None, Some(&mut recs));
-                let mut toks = util::Toks::default();
+                let (_out, built) = fmx::run_scenario(&mut ctx, &v["sc"], n, None, Some(&mut recs));
                 let mut evs: Vec<Value> = vec![];
                 for r in &recs {
+                    if r.kind == "prove" && which.contains("prove") {
+                        let mi = r.info["member"].as_u64().unwrap() as usize;
+                        let b = &built[mi];
+                        let pc = fmx::pedersen_std(b.t);
+                        let b32 = |v: &Value| -> [u8; 32] {
+                            let mut a = [0u8; 32];
+                            for (i, x) in v.as_array().unwrap().iter().enumerate() {
+                                a[i] = x.as_u64().unwrap() as u8;
+                            }
+                            a
+                        };
+                        let inp = trace::ProverInputs {
+                            n: b.n, t: b.t, m: b.m, cap: b.cap, vals: &b.vals, proms: &b.proms, blinds: &b.blinds,
+                            commitments: r.info["commits"].as_array().unwrap().iter().map(b32).collect(),
+                            h: b32(&r.info["H"]), g: r.info["G"].as_array().unwrap().iter().map(b32).collect(),
+                            h_sym: pc.h_base.as_unit().unwrap(), g_syms: pc.g_base_vec.iter().map(|p| p.as_unit().unwrap()).collect(),
+                            seed: b.seed,
+                        };
+                        trace::prove_trace(r, &inp, &mut toks, arith, &mut evs);
+                        ncalls += 1;
+                    }
                     if r.kind == "verify" && which.contains("verify") {
                         trace::verify_trace(r, &mut toks, arith, &mut evs);
                         ncalls += 1;
